@@ -371,8 +371,8 @@ class ColExpr(Generic[T]):
         errors.check_arg_type(Dtype | type, "ColExpr.cast", "target_type", target_type)
         errors.check_arg_type(bool, "ColExpr.cast", "strict", strict)
         if type(target_type) is type and not issubclass(target_type, Dtype):
-            TypeError(
-                "argument for parameter `target_type` of `ColExpr.cast` must be aninstance or subclass of pdt.Dtype"
+            raise TypeError(
+                "argument for parameter `target_type` of `ColExpr.cast` must be an instance or subclass of pdt.Dtype"
             )
         return Cast(self, target_type, strict=strict)
 
